@@ -410,6 +410,7 @@ def check_program(case):
                 fail = "missing_qualifier" if got is None else ("underlying_name_instead_of_alias" if key and POOL[key][0] == "tbl" and got == POOL[key][1] else "wrong_qualifier")
             if not ok:
                 shape = "aliased" if key and is_aliased(key) else (POOL[key][0] if key else "none")
+                shape = {"QU": "preused_query", "UN": "auto_setop", "QN": "auto_query", "QN2": "auto_query", "P3": "self_join", "P4": "self_join", "TS": "self_join"}.get(key, shape)
                 sig = mksig(cls if pos in ("update_orderby", "returning") or case["kind"].startswith("update_j") else "any", case["kind"], pos, shape, fail)
                 if sig not in seen:
                     seen.add(sig)
